@@ -72,6 +72,9 @@ def catalog(impl):
     add('movedim', 'functional.movedim', [((2, 3, 4), A, True)], lambda o: o[0].movedim(0, 2))
     add('transpose', 'functional.transpose', [((2, 3, 4), A, True)], lambda o: o[0].transpose(0, 2))
     add('flatten', 'functional.flatten', [((2, 3, 4), A, True)], lambda o: o[0].flatten(1, -1))
+    add('flatten_noop', 'functional.flatten', [((2, 3), A, True)], lambda o: o[0].flatten(1, 1))
+    add('flatten_1d', 'functional.flatten', [((4,), A, True)], lambda o: o[0].flatten())
+    add('squeeze_noop', 'functional.squeeze', [((2, 3), A, True)], lambda o: o[0].squeeze(0))
     add('unfold_dim', 'functional.unfold_dim', [((2, 5), A, True)], lambda o: o[0].unfold(1, 3, 2))
     # ---- nn ops (nn/functional.py) ------------------------------------------------------------
     add('relu', 'nn.functional.relu', [((2, 3), 'nonzero', True)], lambda o: NF.relu(o[0]))
